@@ -863,7 +863,7 @@ def _parser_pop(ctx: "Wtp", warn_unclosed: bool) -> None:
     if (
         node.kind == NodeKind.LIST_ITEM
         and node.sarg.endswith(";")
-        and node.temp_head
+        and node.temp_head is not None
     ):
         head = node.temp_head
         node.temp_head = None
